@@ -253,22 +253,49 @@ def fmtObs (h : Host) (item : String) : String :=
   else if item.startsWith "s" then s!"s{n}={boolStr (h.sectors n)}"
   else "bad-obs"
 
+/-! ### keeping the state flat
+
+The model's state is made of functions (`Nat → …`) and functions returning functions
+(`creditAccounts`, `drainPools`, …) compile to closures that are re-evaluated at every lookup, so a
+history of n updates would cost 2^n.  After every operation the driver therefore replaces each
+state function by a finite table over the identifiers seen so far in the case — the same function
+on every key any later line can mention.  This is driver plumbing only. -/
+
+def tableOf {α} (dflt : α) (l : List (Nat × α)) : Nat → α := fun x => (l.lookup x).getD dflt
+
+def flatten (ks : List Nat) (h : Host) : Host :=
+  { h with contracts := tableOf none (ks.map fun k => (k, h.contracts k)),
+           accounts := tableOf 0 (ks.map fun k => (k, h.accounts k)),
+           pools := tableOf none (ks.map fun k => (k, h.pools k)),
+           attached := tableOf [] (ks.map fun k => (k, h.attached k)),
+           sectors := tableOf false (ks.map fun k => (k, h.sectors k)) }
+
+/-- every small natural written anywhere in a line (identifiers are small; amounts and times that
+happen to be small only add harmless keys) -/
+def lineKeys (ws : List String) : List Nat :=
+  let digits := fun (w : String) => (w.map fun c => if c.isDigit then c else ' ')
+  (ws.flatMap fun w => (words (digits w)).filterMap nat?).filter (· < 200000)
+
+def addKeys (ks new : List Nat) : List Nat :=
+  new.foldl (fun acc k => if acc.contains k then acc else k :: acc) ks
+
 def rhpHost : Model where
-  σ := Host
+  σ := Host × List Nat
   init := fun ws => match ws with
-    | [hk, now, tip] => do some (Host.init (← nat? hk) (← nat? now) (← nat? tip))
+    | [hk, now, tip] => do some (Host.init (← nat? hk) (← nat? now) (← nat? tip), [])
     | _ => none
-  step := fun h ws =>
+  step := fun (h, ks) ws =>
+    let ks := addKeys ks (lineKeys ws)
     match adoptOp h ws with
-    | some h' => (h', "ok")
+    | some h' => ((flatten ks h', ks), "ok")
     | none =>
     match parseOp h ws with
-    | none => (h, "bad-op")
-    | some (.obs items) => (h, " ".intercalate (items.map (fmtObs h)))
+    | none => ((h, ks), "bad-op")
+    | some (.obs items) => ((h, ks), " ".intercalate (items.map (fmtObs h)))
     | some (.op o) =>
       let (h', out, evs) := stepOp h o
       let last := ws.getLast?.getD ""
-      (h', fmtOut out evs (last == "drop" || last.endsWith "!"))
+      ((flatten ks h', ks), fmtOut out evs (last == "drop" || last.endsWith "!"))
 
 /-- the client-side normalisation alone (`rpc.go:596-600`) and the list functions, for the
 exhaustive list-level correspondence of C09 -/
